@@ -114,7 +114,9 @@ def register(T, repo):
 
     # ------------------------------------------------------ get_txt_pos_ml
     def gml_result(A):
-        return DictS(ListS(PartS(A), lambda n: zint(n) >= 1, 'parts'), 'ml')
+        # (a list may be empty for a moment: `d.setdefault(k, []).append(p)`;
+        # the property speaks about the parts, not about their number)
+        return DictS(ListS(PartS(A), lambda n: zint(n) >= 0, 'parts'), 'ml')
 
     def gml_ghost(ex, st, mode, vals):
         if mode == 'proof':
@@ -301,7 +303,7 @@ def register(T, repo):
         if d.tag in ('ml', 'literal'):
             # ret[lang] = [[txt, pos]]: the stored parts keep the invariant
             G = {'lo': st.ghost['lo'], 'hi': st.ghost['hi']}
-            ListS(PartS(G), lambda n: zint(n) >= 1).check(
+            ListS(PartS(G), lambda n: zint(n) >= 0).check(
                 ex, st, v, 'store:ml-part@%d' % line, line)
             return
         if prev:
